@@ -199,7 +199,7 @@ Qed.
 
 (* ------------------------------------------------------------------ the unrepaired readSignature is outside the fragment *)
 
-(* the shape of group.go:441-476 with readSignature returning "" on a failed read: 4 bytes are read at [a];
+(* the shape of group.go:447-484 with readSignature as it was before /repo 216d529, returning "" on a failed read: 4 bytes are read at [a];
    "SNOD" selects one way of listing the entry, anything else (also "") the other; both succeed *)
 Definition sig_dispatch (a : N) : prog N :=
   Swallow (ReadAt a 4 (fun b => Ret b)) [] (fun sg => if bytes_eqb sg SNOD then Ret 1 else Ret 2).
